@@ -13,6 +13,7 @@ Overlay syntax (lines starting with `//@`):
        //@ loop <k> [iter=<name>]   invariant/decreases text placed in the header of loop k (source order)
        //@ loop_begin <k>      text placed at the first statement position of loop k's body
        //@ loop_end <k>        text placed after the last statement of loop k's body
+       //@ guard_else <k>      (next lines: what the later arms do) moves match guard k into the arm body
        //@ annot <name>        (next line: a type) adds `: T` to `let [mut] <name> = ..`
        //@ after_let <name>    text placed immediately after the statement `let [mut] <name> ...;`
        //@ before <k>          text placed immediately before loop k's statement
@@ -59,6 +60,7 @@ RULES = {
     "R10": "byte-string literal -> array literal of the same bytes",
     "R11": "`crate::a::b::X` / `super::X` / `Self::` path prefixes stripped or renamed for single-file assembly",
     "R14": "from_be_bytes/to_be_bytes -> stub with arithmetic spec",
+    "G1": "match-arm guard `P if C => B` -> `P => { if C { B } else { E } }` with E (what the later arms do for P) given in the overlay; works around a Verus crash on guards reading mutable locals",
     "A1": "closure annotated with parameter types / ensures; body wrapped in braces verbatim",
     "S": "overlay substitution at an exact text anchor (reason given in overlay)",
 }
@@ -1116,6 +1118,55 @@ def build_item(cur, log):
                 ed.insert(toks[lc_].start, "\n" + x.text + "\n")
             else:
                 ed.insert(toks[lc_].end, "\n" + x.text + "\n")
+        elif x.kind == "guard_else":
+            # k-th match-arm guard `PAT if COND => BODY` -> `PAT => { if COND { BODY } else { <overlay text> } }`.
+            # The overlay text is what the remaining arms do for this pattern when the guard fails (stated in the overlay);
+            # needed because Verus 0.2026.09.13 crashes on guards that read mutable locals.
+            kidx = int(x.arg)
+            guards = []
+            q = k_body + 1
+            while q < k_close:
+                if toks[q].kind == "ident" and toks[q].text == "if":
+                    pq = prev_code(toks, q)
+                    if pq is not None and (toks[pq].kind in ("char", "num", "str") or toks[pq].text in (")", "_") or (toks[pq].kind == "ident" and toks[pq].text not in ("else", "return", "in", "let", "match"))):
+                        # scan forward for `=>` before `{` at depth 0
+                        depth = 0; e = q + 1; arrow = None
+                        while e < k_close:
+                            tt = toks[e]
+                            if tt.kind == "punct" and tt.text in ("(", "["): depth += 1
+                            elif tt.kind == "punct" and tt.text in (")", "]"): depth -= 1
+                            elif tt.kind == "punct" and tt.text == "{" and depth == 0: break
+                            elif tt.kind == "punct" and tt.text == "=>" and depth == 0: arrow = e; break
+                            elif tt.kind == "punct" and tt.text == ";" and depth == 0: break
+                            e += 1
+                        if arrow is not None: guards.append((q, arrow))
+                q += 1
+            if kidx >= len(guards):
+                if x.opts.get("opt"): continue
+                raise ExtractError(f"lost-anchor: {where}: match guard {kidx} not found")
+            gq, arrow = guards[kidx]
+            cond = text[toks[gq].end:toks[arrow].start].strip()
+            b0 = next_code(toks, arrow)
+            if toks[b0].text == "{":
+                b1 = match_forward(toks, b0)
+                ed.replace(toks[gq].start, toks[arrow].start, "")
+                ed.insert(toks[b0].start, "{ if " + cond + " ")
+                ed.insert(toks[b1].end, " else { " + x.text.strip() + " } }")
+            else:
+                depth = 0; e = b0
+                while e < k_close:
+                    tt = toks[e]
+                    if tt.kind == "punct" and tt.text in OPEN_SET: depth += 1
+                    elif tt.kind == "punct" and tt.text in CLOSE_SET:
+                        if depth == 0: break
+                        depth -= 1
+                    elif tt.kind == "punct" and tt.text == "," and depth == 0: break
+                    e += 1
+                b1 = prev_code(toks, e)
+                ed.replace(toks[gq].start, toks[arrow].start, "")
+                ed.insert(toks[b0].start, "{ if " + cond + " { ")
+                ed.insert(toks[b1].end, " } else { " + x.text.strip() + " } }")
+            log.append(("G1", where, f"match guard `if {cond}` moved into the arm body; else-branch: {x.text.strip()}"))
         elif x.kind == "annot":
             # type annotation on `let [mut] NAME =` (the invariant mentions NAME before rustc can infer its type)
             nm = x.arg
